@@ -1,32 +1,12 @@
 /-
   Lemmas about `Sbepp.Gen.Pipeline`: which stops the parsing stages can produce
-  (`Errs Q x`: every error of `x` satisfies `Q`), fuel monotonicity of include
-  resolution, and the {fmt} brace lemmas.
+  (`Errs Q x`: every error of `x` satisfies `Q`), the bound on the nesting of
+  include parsers that the include stack gives, fuel monotonicity, the shapes
+  of a run.
 -/
 import Sbepp.Gen.Pipeline
 
 namespace Sbepp.Gen.Pipeline
-
-/-! ## {fmt} -/
-
-theorem fmtSafeChars_of_noBrace : ∀ (l : List Char), (∀ c ∈ l, c ≠ '{' ∧ c ≠ '}') → fmtSafeChars l = true
-  | [], _ => rfl
-  | c :: r, h => by
-    have hc := h c (by simp)
-    have hr : ∀ d ∈ r, d ≠ '{' ∧ d ≠ '}' := fun d hd => h d (by simp [hd])
-    have ih := fmtSafeChars_of_noBrace r hr
-    unfold fmtSafeChars
-    split <;> simp_all
-
-theorem fmtSafe_of_braceFree (s : String) (h : braceFree s) : fmtSafe s = true :=
-  fmtSafeChars_of_noBrace _ h
-
-theorem braceFree_append (a b : String) (ha : braceFree a) (hb : braceFree b) : braceFree (a ++ b) := by
-  intro c hc
-  rw [String.toList_append] at hc
-  rcases List.mem_append.mp hc with h | h
-  · exact ha c h
-  · exact hb c h
 
 /-! ## which errors a computation can raise -/
 
@@ -67,14 +47,6 @@ theorem diagOk_notFuel : DiagOk NotFuel := fun _ => trivial
 section atoms
 variable {Q : PStop → Prop}
 
-theorem errs_findLoc (ok : Bool) (h : ok = true ∨ Q (.crash .offsetBeyondContent)) : Errs Q (findLoc ok) := by
-  unfold findLoc
-  split
-  · exact Errs.pure _
-  · rcases h with h | h
-    · rename_i hne; exact absurd h hne
-    · exact Errs.throw _ h
-
 theorem errs_requiredNonEmpty (hq : DiagOk Q) (path : String) (n : TNode) (a : String) :
     Errs Q (requiredNonEmpty path n a) := by
   unfold requiredNonEmpty
@@ -99,11 +71,9 @@ theorem errs_reqNum (hq : DiagOk Q) (path : String) (n : TNode) (a : String) (b 
   · exact Errs.pure _
   · exact Errs.throw _ (hq _)
 
-theorem errs_parseType (hq : DiagOk Q) (path : String) (n : TNode)
-    (hoff : n.offOk = true ∨ Q (.crash .offsetBeyondContent))
-    (hcc : constCharTrig n = false ∨ Q (.crash .constCharNoValue)) : Errs Q (parseType path n) := by
+/-- `parse_type_encoding` raises diagnostics only -/
+theorem errs_parseType (hq : DiagOk Q) (path : String) (n : TNode) : Errs Q (parseType path n) := by
   unfold parseType
-  refine Errs.bind (errs_findLoc _ hoff) (fun _ _ => ?_)
   refine Errs.bind (errs_requiredNonEmpty hq _ _ _) (fun _ _ => ?_)
   refine Errs.bind ?_ (fun _ _ => ?_)
   · unfold checkPresence
@@ -116,19 +86,11 @@ theorem errs_parseType (hq : DiagOk Q) (path : String) (n : TNode)
   refine Errs.bind (errs_optNum hq _ _ _ _) (fun _ _ => ?_)
   refine Errs.bind (errs_requiredNonEmpty hq _ _ _) (fun _ _ => ?_)
   refine Errs.bind (errs_optNum hq _ _ _ _) (fun _ _ => ?_)
-  refine Errs.bind (errs_optNum hq _ _ _ _) (fun _ _ => ?_)
-  unfold constCharAccess
-  split
-  · rcases hcc with h | h
-    · rename_i ht; rw [h] at ht; cases ht
-    · exact Errs.throw _ h
-  · exact Errs.pure _
+  exact errs_optNum hq _ _ _ _
 
 /-- what a node must satisfy for its visit to raise only `Q`-stops -/
 def NodeOk (Q : PStop → Prop) (env : Env) (n : TNode) : Prop :=
-  (n.offOk = true ∨ Q (.crash .offsetBeyondContent)) ∧
-  (n.depth ≤ env.stackLimit ∨ Q (.crash .nestingTooDeep)) ∧
-  (constCharTrig n = false ∨ Q (.crash .constCharNoValue))
+  n.depth ≤ env.stackLimit ∨ Q (.crash .nestingTooDeep)
 
 theorem errs_checkNode (hq : DiagOk Q) (env : Env) (path : String) (n : TNode) (h : NodeOk Q env n) :
     Errs Q (checkNode env path n) := by
@@ -136,13 +98,13 @@ theorem errs_checkNode (hq : DiagOk Q) (env : Env) (path : String) (n : TNode) (
   refine Errs.bind ?_ (fun _ _ => ?_)
   · unfold checkDepth
     split
-    · rcases h.2.1 with h' | h'
+    · rcases h with h' | h'
       · rename_i hlt; omega
       · exact Errs.throw _ h'
     · exact Errs.pure _
   · split
-    · exact errs_parseType hq _ _ h.1 h.2.2
-    · exact errs_findLoc _ h.1
+    · exact errs_parseType hq _ _
+    · exact Errs.pure _
 
 theorem errs_checkNodes (hq : DiagOk Q) (env : Env) (path : String) :
     ∀ ns : List TNode, (∀ n ∈ ns, NodeOk Q env n) → Errs Q (checkNodes env path ns)
@@ -158,11 +120,11 @@ end atoms
 
 /-- the nodes of an item that `parseItemsWith` visits -/
 def Item.visited : Item → List TNode
-  | .schema n _ => [n]
+  | .schema _ _ => []
   | .types _ d => d
   | .message n d => n :: d
   | .incl _ => []
-  | .other n => [n]
+  | .other _ => []
 
 theorem errs_parseItemsWith {Q : PStop → Prop} (hq : DiagOk Q) (env : Env) (path : String)
     (incl : TNode → Parsed → PM Parsed) :
@@ -191,35 +153,15 @@ theorem errs_parseItemsWith {Q : PStop → Prop} (hq : DiagOk Q) (env : Env) (pa
       exact errs_parseItemsWith hq env path incl r _ hn' hi'
     | other n =>
       unfold parseItemsWith
-      have := (hn (.other n) (by simp) n (by simp [Item.visited])).1
-      refine Errs.bind (errs_findLoc _ this) (fun _ _ => ?_)
       exact errs_parseItemsWith hq env path incl r _ hn' hi'
     | schema n c =>
       unfold parseItemsWith
-      have := (hn (.schema n c) (by simp) n (by simp [Item.visited])).1
-      refine Errs.bind (errs_findLoc _ this) (fun _ _ => ?_)
       exact errs_parseItemsWith hq env path incl r _ hn' hi'
 
 /-! ## documents, includes, fuel -/
 
-def Item.head : Item → TNode
-  | .schema n _ => n
-  | .types n _ => n
-  | .message n _ => n
-  | .incl n => n
-  | .other n => n
-
-/-- the include graph decreases a rank: it is acyclic -/
-def Acyclic (fs : FS) (rank : String → Nat) : Prop :=
-  ∀ p top, fs.get p = .file (.doc top) →
-    (∀ n, Item.incl n ∈ top → ∀ h, n.attr "href" = some h → rank h < rank p) ∧
-    (∀ sn c, Item.schema sn c ∈ top → ∀ n, Item.incl n ∈ c → ∀ h, n.attr "href" = some h → rank h < rank p)
-
-/-- every file-system entry and every node raises only `Q`-stops when visited -/
+/-- every node of every document raises only `Q`-stops when visited -/
 structure FsOk (Q : PStop → Prop) (env : Env) (fs : FS) : Prop where
-  dir : ∀ p, fs.get p = .dir → Q (.crash .inputIsDirectory)
-  malformed : ∀ p w ok, fs.get p = .file (.malformed w ok) → ok = true ∨ Q (.crash .offsetBeyondContent)
-  heads : ∀ p top, fs.get p = .file (.doc top) → ∀ i ∈ top, i.head.offOk = true ∨ Q (.crash .offsetBeyondContent)
   nodes : ∀ p top, fs.get p = .file (.doc top) → ∀ i ∈ top, ∀ n ∈ i.visited, NodeOk Q env n
   content : ∀ p top, fs.get p = .file (.doc top) → ∀ sn c, Item.schema sn c ∈ top →
     ∀ i ∈ c, ∀ n ∈ i.visited, NodeOk Q env n
@@ -241,41 +183,98 @@ theorem loadDoc_ok {fs : FS} {path : String} {top : List Item} (h : loadDoc fs p
   split at h
   · cases h
   · cases h
-  · rename_i w ok _
-    cases ok <;> simp [findLoc, bind, Except.bind, throw, throwThe, MonadExceptOf.throw, pure, Except.pure] at h
+  · cases h
   · rename_i t ht
     have : t = top := by simpa [pure, Except.pure] using h
     rw [ht, this]
 
-theorem errs_loadDoc {Q : PStop → Prop} (hq : DiagOk Q) {env : Env} {fs : FS} (hfs : FsOk Q env fs) (path : String) :
-    Errs Q (loadDoc fs path) := by
+/-- `read_file` + `parse_xml` raise diagnostics only (a directory included) -/
+theorem errs_loadDoc {Q : PStop → Prop} (hq : DiagOk Q) (fs : FS) (path : String) : Errs Q (loadDoc fs path) := by
   unfold loadDoc
   split
   · exact Errs.throw _ (hq _)
-  · rename_i hd; exact Errs.throw _ (hfs.dir _ hd)
-  · rename_i w ok hm
-    exact Errs.bind (errs_findLoc _ (hfs.malformed _ _ _ hm)) (fun _ _ => Errs.throw _ (hq _))
+  · exact Errs.throw _ (hq _)
+  · exact Errs.throw _ (hq _)
   · exact Errs.pure _
 
-theorem errs_parseIncl {Q : PStop → Prop} (hq : DiagOk Q) {env : Env} {fs : FS} (hfs : FsOk Q env fs)
-    {rank : String → Nat} (hac : Acyclic fs rank) :
-    ∀ (fuel : Nat) (path : String) (n : TNode) (acc : Parsed),
-      (∀ h, n.attr "href" = some h → rank h < fuel) → Errs Q (parseIncl env fs path fuel n acc)
-  | 0, path, n, acc, hr => by
-    unfold parseIncl
-    refine Errs.bind (errs_requiredNonEmpty hq _ _ _) (fun v hv => ?_)
-    have := hr v (requiredNonEmpty_ok hv)
+theorem lookup_mem {α β} [BEq α] [LawfulBEq α] : ∀ (l : List (α × β)) (k : α) (v : β), l.lookup k = some v → (k, v) ∈ l
+  | [], _, _, h => by simp [List.lookup] at h
+  | (a, b) :: r, k, v, h => by
+    unfold List.lookup at h
+    split at h
+    · rename_i heq
+      have : k = a := by simpa using heq
+      cases h; subst this; simp
+    · exact List.mem_cons_of_mem _ (lookup_mem r k v h)
+
+theorem get_mem {fs : FS} {p : String} {e : Entry} (h : fs.get p = e) (hne : e ≠ .missing) : (p, e) ∈ fs := by
+  unfold FS.get at h
+  cases hl : List.lookup p fs with
+  | none => rw [hl] at h; simp at h; exact absurd h.symm hne
+  | some v => rw [hl] at h; simp at h; subst h; exact lookup_mem fs p v hl
+
+def keys (fs : FS) : List String := fs.map (·.1)
+
+theorem key_of_doc {fs : FS} {p : String} {top : List Item} (h : fs.get p = .file (.doc top)) : p ∈ keys fs :=
+  List.mem_map.mpr ⟨_, get_mem h (by simp), rfl⟩
+
+/-- pigeonhole: a duplicate-free list inside `m` is not longer than `m` -/
+theorem nodup_length_le : ∀ (l m : List String), l.Nodup → (∀ x ∈ l, x ∈ m) → l.length ≤ m.length
+  | [], _, _, _ => by simp
+  | a :: t, m, hnd, hs => by
+    have ha : a ∈ m := hs a (by simp)
+    obtain ⟨hat, ht⟩ := List.nodup_cons.mp hnd
+    have hsub : ∀ x ∈ t, x ∈ m.erase a := by
+      intro x hx
+      have hne : x ≠ a := fun h => hat (h ▸ hx)
+      exact (List.mem_erase_of_ne hne).mpr (hs x (by simp [hx]))
+    have ih := nodup_length_le t (m.erase a) ht hsub
+    have hl := List.length_erase_of_mem ha
+    have hpos : 0 < m.length := List.length_pos_of_mem ha
+    simp only [List.length_cons]
     omega
-  | fuel + 1, path, n, acc, hr => by
-    unfold parseIncl
-    refine Errs.bind (errs_requiredNonEmpty hq _ _ _) (fun href hhref => ?_)
-    refine Errs.bind (errs_loadDoc hq hfs href) (fun top htop => ?_)
-    have hdoc := loadDoc_ok htop
-    have hlt : rank href < fuel + 1 := hr href (requiredNonEmpty_ok hhref)
-    refine errs_parseItemsWith hq env href _ top acc (hfs.nodes href top hdoc) (fun n' hmem a => ?_)
-    refine errs_parseIncl hq hfs hac fuel href n' a (fun h' hh' => ?_)
-    have := (hac href top hdoc).1 n' hmem h' hh'
+
+/-- the include stack: distinct paths, each a file of `fs` -/
+def StackOk (fs : FS) (stack : List String) : Prop := stack.Nodup ∧ ∀ p ∈ stack, p ∈ keys fs
+
+theorem stackOk_length {fs : FS} {stack : List String} (h : StackOk fs stack) : stack.length ≤ fs.length := by
+  have := nodup_length_le stack (keys fs) h.1 h.2
+  simpa [keys] using this
+
+theorem stackOk_push {fs : FS} {stack : List String} {p : String} (h : StackOk fs stack) (hp : p ∉ stack)
+    (hk : p ∈ keys fs) : StackOk fs (stack ++ [p]) := by
+  refine ⟨?_, ?_⟩
+  · rw [List.nodup_append]
+    refine ⟨h.1, by simp, ?_⟩
+    intro a ha b hb
+    simp only [List.mem_singleton] at hb
+    subst hb
+    exact fun hab => hp (hab ▸ ha)
+  · intro q hq
+    rcases List.mem_append.mp hq with hq | hq
+    · exact h.2 q hq
+    · simp only [List.mem_singleton] at hq; subst hq; exact hk
+
+/-- `parse_include` with enough fuel for the files that are not yet on the stack -/
+theorem errs_parseIncl {Q : PStop → Prop} (hq : DiagOk Q) {env : Env} {fs : FS} (hfs : FsOk Q env fs) :
+    ∀ (fuel : Nat) (path : String) (stack : List String) (n : TNode) (acc : Parsed),
+      StackOk fs stack → fs.length < fuel + stack.length → Errs Q (parseIncl env fs path stack fuel n acc)
+  | 0, path, stack, n, acc, hst, hb => by
+    have := stackOk_length hst
     omega
+  | fuel + 1, path, stack, n, acc, hst, hb => by
+    unfold parseIncl
+    refine Errs.bind (errs_requiredNonEmpty hq _ _ _) (fun href _ => ?_)
+    split
+    · exact Errs.throw _ (hq _)
+    · rename_i hns
+      refine Errs.bind (errs_loadDoc hq fs href) (fun top htop => ?_)
+      have hdoc := loadDoc_ok htop
+      have hst' := stackOk_push hst hns (key_of_doc hdoc)
+      refine errs_parseItemsWith hq env href _ top acc (hfs.nodes href top hdoc) (fun n' _ a => ?_)
+      refine errs_parseIncl hq hfs fuel href (stack ++ [href]) n' a hst' ?_
+      simp only [List.length_append, List.length_singleton]
+      omega
 
 theorem findSchema_mem {path : String} : ∀ {top : List Item} {n : TNode} {c : List Item},
     findSchema path top = .ok (n, c) → Item.schema n c ∈ top
@@ -286,43 +285,27 @@ theorem findSchema_mem {path : String} : ∀ {top : List Item} {n : TNode} {c : 
       unfold findSchema at h
       have : (n', c') = (n, c) := by simpa [pure, Except.pure] using h
       cases this; simp
-    | types n' d =>
-      unfold findSchema at h
-      cases hn : n'.offOk <;> simp [hn, findLoc, bind, Except.bind, throw, throwThe, MonadExceptOf.throw, pure, Except.pure] at h
-      exact List.mem_cons_of_mem _ (findSchema_mem h)
-    | message n' d =>
-      unfold findSchema at h
-      cases hn : n'.offOk <;> simp [hn, findLoc, bind, Except.bind, throw, throwThe, MonadExceptOf.throw, pure, Except.pure] at h
-      exact List.mem_cons_of_mem _ (findSchema_mem h)
-    | incl n' =>
-      unfold findSchema at h
-      cases hn : n'.offOk <;> simp [hn, findLoc, bind, Except.bind, throw, throwThe, MonadExceptOf.throw, pure, Except.pure] at h
-      exact List.mem_cons_of_mem _ (findSchema_mem h)
-    | other n' =>
-      unfold findSchema at h
-      cases hn : n'.offOk <;> simp [hn, findLoc, bind, Except.bind, throw, throwThe, MonadExceptOf.throw, pure, Except.pure] at h
-      exact List.mem_cons_of_mem _ (findSchema_mem h)
+    | types n' d => unfold findSchema at h; exact List.mem_cons_of_mem _ (findSchema_mem h)
+    | message n' d => unfold findSchema at h; exact List.mem_cons_of_mem _ (findSchema_mem h)
+    | incl n' => unfold findSchema at h; exact List.mem_cons_of_mem _ (findSchema_mem h)
+    | other n' => unfold findSchema at h; exact List.mem_cons_of_mem _ (findSchema_mem h)
 
 theorem errs_findSchema {Q : PStop → Prop} (hq : DiagOk Q) (path : String) :
-    ∀ (top : List Item), (∀ i ∈ top, i.head.offOk = true ∨ Q (.crash .offsetBeyondContent)) →
-      Errs Q (findSchema path top)
-  | [], _ => by unfold findSchema; exact Errs.throw _ (hq _)
-  | i :: r, h => by
-    have hr : ∀ j ∈ r, j.head.offOk = true ∨ Q (.crash .offsetBeyondContent) := fun j hj => h j (by simp [hj])
-    have hi := h i (by simp)
+    ∀ (top : List Item), Errs Q (findSchema path top)
+  | [] => by unfold findSchema; exact Errs.throw _ (hq _)
+  | i :: r => by
     cases i with
     | schema n c => unfold findSchema; exact Errs.pure _
-    | types n d => unfold findSchema; exact Errs.bind (errs_findLoc _ hi) (fun _ _ => errs_findSchema hq path r hr)
-    | message n d => unfold findSchema; exact Errs.bind (errs_findLoc _ hi) (fun _ _ => errs_findSchema hq path r hr)
-    | incl n => unfold findSchema; exact Errs.bind (errs_findLoc _ hi) (fun _ _ => errs_findSchema hq path r hr)
-    | other n => unfold findSchema; exact Errs.bind (errs_findLoc _ hi) (fun _ _ => errs_findSchema hq path r hr)
+    | types n d => unfold findSchema; exact errs_findSchema hq path r
+    | message n d => unfold findSchema; exact errs_findSchema hq path r
+    | incl n => unfold findSchema; exact errs_findSchema hq path r
+    | other n => unfold findSchema; exact errs_findSchema hq path r
 
-theorem errs_parseSchemaAttrs {Q : PStop → Prop} (hq : DiagOk Q) (path : String) (n : TNode)
-    (h : n.offOk = true ∨ Q (.crash .offsetBeyondContent)) : Errs Q (parseSchemaAttrs path n) := by
+theorem errs_parseSchemaAttrs {Q : PStop → Prop} (hq : DiagOk Q) (path : String) (n : TNode) :
+    Errs Q (parseSchemaAttrs path n) := by
   unfold parseSchemaAttrs
   refine Errs.bind (errs_reqNum hq _ _ _ _) (fun _ _ => ?_)
   refine Errs.bind (errs_reqNum hq _ _ _ _) (fun _ _ => ?_)
-  refine Errs.bind ?_ (fun _ _ => errs_findLoc _ h)
   unfold checkByteOrder
   split
   · exact Errs.pure _
@@ -331,21 +314,22 @@ theorem errs_parseSchemaAttrs {Q : PStop → Prop} (hq : DiagOk Q) (path : Strin
     · exact Errs.throw _ (hq _)
 
 theorem errs_parseMain {Q : PStop → Prop} (hq : DiagOk Q) {env : Env} {fs : FS} (hfs : FsOk Q env fs)
-    {rank : String → Nat} (hac : Acyclic fs rank) (fuel : Nat) (path : String) (hf : rank path ≤ fuel) :
-    Errs Q (parseMain env fs fuel path) := by
+    (fuel : Nat) (path : String) (hf : fs.length ≤ fuel) : Errs Q (parseMain env fs fuel path) := by
   unfold parseMain
-  refine Errs.bind (errs_loadDoc hq hfs path) (fun top htop => ?_)
+  refine Errs.bind (errs_loadDoc hq fs path) (fun top htop => ?_)
   have hdoc := loadDoc_ok htop
-  refine Errs.bind (errs_findSchema hq path top (hfs.heads path top hdoc)) (fun nc hnc => ?_)
+  refine Errs.bind (errs_findSchema hq path top) (fun nc hnc => ?_)
   obtain ⟨n, c⟩ := nc
   have hmem := findSchema_mem hnc
-  refine Errs.bind (errs_parseSchemaAttrs hq path n (hfs.heads path top hdoc _ hmem)) (fun _ _ => ?_)
-  refine errs_parseItemsWith hq env path _ c _ (hfs.content path top hdoc n c hmem) (fun n' hm a => ?_)
-  refine errs_parseIncl hq hfs hac fuel path n' a (fun h' hh' => ?_)
-  have := (hac path top hdoc).2 n c hmem n' hm h' hh'
-  omega
+  refine Errs.bind (errs_parseSchemaAttrs hq path n) (fun _ _ => ?_)
+  refine errs_parseItemsWith hq env path _ c _ (hfs.content path top hdoc n c hmem) (fun n' _ a => ?_)
+  refine errs_parseIncl hq hfs fuel path [path] n' a ⟨by simp, ?_⟩ (by simp; omega)
+  intro q hq'
+  simp only [List.mem_singleton] at hq'
+  subst hq'
+  exact key_of_doc hdoc
 
-/-! ### more fuel changes nothing once the include graph is exhausted -/
+/-! ### more fuel changes nothing -/
 
 theorem parseItemsWith_congr (env : Env) (path : String) (f g : TNode → Parsed → PM Parsed) :
     ∀ (items : List Item) (acc : Parsed), (∀ n, Item.incl n ∈ items → ∀ a, f n a = g n a) →
@@ -368,44 +352,37 @@ theorem parseItemsWith_congr (env : Env) (path : String) (f g : TNode → Parsed
       exact parseItemsWith_congr env path f g r acc' hr
     | other n =>
       unfold parseItemsWith
-      simp only [parseItemsWith_congr env path f g r _ hr]
+      exact parseItemsWith_congr env path f g r _ hr
     | schema n c =>
       unfold parseItemsWith
-      simp only [parseItemsWith_congr env path f g r _ hr]
+      exact parseItemsWith_congr env path f g r _ hr
 
-theorem parseIncl_fuel_stable {env : Env} {fs : FS} {rank : String → Nat} (hac : Acyclic fs rank) :
-    ∀ (f1 f2 : Nat) (path : String) (n : TNode) (acc : Parsed),
-      (∀ h, n.attr "href" = some h → rank h < f1 ∧ rank h < f2) →
-      parseIncl env fs path f1 n acc = parseIncl env fs path f2 n acc
-  | 0, f2, path, n, acc, hr => by
-    unfold parseIncl
-    cases hv : requiredNonEmpty path n "href" with
-    | error e => cases f2 <;> simp [parseIncl, bind, Except.bind, hv]
-    | ok v => have := (hr v (requiredNonEmpty_ok hv)).1; omega
-  | f1 + 1, 0, path, n, acc, hr => by
-    unfold parseIncl
-    cases hv : requiredNonEmpty path n "href" with
-    | error e => simp [bind, Except.bind]
-    | ok v => have := (hr v (requiredNonEmpty_ok hv)).2; omega
-  | f1 + 1, f2 + 1, path, n, acc, hr => by
+theorem parseIncl_fuel_stable {env : Env} {fs : FS} :
+    ∀ (f1 f2 : Nat) (path : String) (stack : List String) (n : TNode) (acc : Parsed),
+      StackOk fs stack → fs.length < f1 + stack.length → fs.length < f2 + stack.length →
+      parseIncl env fs path stack f1 n acc = parseIncl env fs path stack f2 n acc
+  | 0, _, _, _, _, _, hst, h1, _ => by have := stackOk_length hst; omega
+  | _ + 1, 0, _, _, _, _, hst, _, h2 => by have := stackOk_length hst; omega
+  | f1 + 1, f2 + 1, path, stack, n, acc, hst, h1, h2 => by
     unfold parseIncl
     cases hv : requiredNonEmpty path n "href" with
     | error e => simp [bind, Except.bind]
     | ok href =>
       simp only [bind, Except.bind]
-      cases ht : loadDoc fs href with
-      | error e => rfl
-      | ok top =>
-        simp only []
-        have hdoc := loadDoc_ok ht
-        have hlt := hr href (requiredNonEmpty_ok hv)
-        refine parseItemsWith_congr env href _ _ top acc (fun n' hm a => ?_)
-        refine parseIncl_fuel_stable hac f1 f2 href n' a (fun h' hh' => ?_)
-        have := (hac href top hdoc).1 n' hm h' hh'
-        omega
+      split
+      · rfl
+      · rename_i hns
+        cases ht : loadDoc fs href with
+        | error e => rfl
+        | ok top =>
+          simp only []
+          have hst' := stackOk_push hst hns (key_of_doc (loadDoc_ok ht))
+          refine parseItemsWith_congr env href _ _ top acc (fun n' _ a => ?_)
+          refine parseIncl_fuel_stable f1 f2 href (stack ++ [href]) n' a hst' ?_ ?_ <;>
+            (simp only [List.length_append, List.length_singleton]; omega)
 
-theorem parseMain_fuel_stable {env : Env} {fs : FS} {rank : String → Nat} (hac : Acyclic fs rank)
-    (f1 f2 : Nat) (path : String) (h1 : rank path ≤ f1) (h2 : rank path ≤ f2) :
+theorem parseMain_fuel_stable {env : Env} {fs : FS} (f1 f2 : Nat) (path : String)
+    (h1 : fs.length ≤ f1) (h2 : fs.length ≤ f2) :
     parseMain env fs f1 path = parseMain env fs f2 path := by
   unfold parseMain
   cases ht : loadDoc fs path with
@@ -418,104 +395,54 @@ theorem parseMain_fuel_stable {env : Env} {fs : FS} {rank : String → Nat} (hac
     | ok nc =>
       obtain ⟨n, c⟩ := nc
       simp only []
-      have hmem := findSchema_mem hs
       cases parseSchemaAttrs path n with
       | error e => rfl
       | ok _ =>
         simp only []
-        refine parseItemsWith_congr env path _ _ c _ (fun n' hm a => ?_)
-        refine parseIncl_fuel_stable hac f1 f2 path n' a (fun h' hh' => ?_)
-        have := (hac path top hdoc).2 n c hmem n' hm h' hh'
-        omega
+        refine parseItemsWith_congr env path _ _ c _ (fun n' _ a => ?_)
+        refine parseIncl_fuel_stable f1 f2 path [path] n' a ⟨by simp, ?_⟩ (by simp; omega) (by simp; omega)
+        intro q hq'
+        simp only [List.mem_singleton] at hq'
+        subst hq'
+        exact key_of_doc hdoc
 
-/-! ## a decidable sufficient condition for `FsOk IsDiag` and `Acyclic` -/
+/-! ## a decidable sufficient condition for `FsOk IsDiag` -/
 
-def nodeOkB (env : Env) (n : TNode) : Bool :=
-  n.offOk && decide (n.depth ≤ env.stackLimit) && !constCharTrig n
+def nodeOkB (env : Env) (n : TNode) : Bool := decide (n.depth ≤ env.stackLimit)
 
 def Item.contentOf : Item → List Item
   | .schema _ c => c
   | _ => []
 
-def inclOkB (rank : String → Nat) (p : String) : Item → Bool
-  | .incl n =>
-    match n.attr "href" with
-    | some h => decide (rank h < rank p)
-    | none => true
+def itemOkB (env : Env) (i : Item) : Bool := i.visited.all (nodeOkB env)
+
+def entryOkB (env : Env) (pe : String × Entry) : Bool :=
+  match pe.2 with
+  | .file (.doc top) => top.all (fun i => itemOkB env i && i.contentOf.all (itemOkB env))
   | _ => true
 
-def itemOkB (env : Env) (rank : String → Nat) (p : String) (i : Item) : Bool :=
-  i.head.offOk && i.visited.all (nodeOkB env) && inclOkB rank p i
-
-def entryOkB (env : Env) (rank : String → Nat) (pe : String × Entry) : Bool :=
-  match pe.2 with
-  | .missing => true
-  | .dir => false
-  | .file (.malformed _ ok) => ok
-  | .file (.doc top) => top.all (fun i => itemOkB env rank pe.1 i && i.contentOf.all (itemOkB env rank pe.1))
-
-theorem lookup_mem {α β} [BEq α] [LawfulBEq α] : ∀ (l : List (α × β)) (k : α) (v : β), l.lookup k = some v → (k, v) ∈ l
-  | [], _, _, h => by simp [List.lookup] at h
-  | (a, b) :: r, k, v, h => by
-    unfold List.lookup at h
-    split at h
-    · rename_i heq
-      have : k = a := by simpa using heq
-      cases h; subst this; simp
-    · exact List.mem_cons_of_mem _ (lookup_mem r k v h)
-
-theorem get_mem {fs : FS} {p : String} {e : Entry} (h : fs.get p = e) (hne : e ≠ .missing) : (p, e) ∈ fs := by
-  unfold FS.get at h
-  cases hl : List.lookup p fs with
-  | none => rw [hl] at h; simp at h; exact absurd h.symm hne
-  | some v => rw [hl] at h; simp at h; subst h; exact lookup_mem fs p v hl
-
-theorem nodeOk_of_B {env : Env} {n : TNode} (h : nodeOkB env n = true) : NodeOk IsDiag env n := by
-  unfold nodeOkB at h
-  simp only [Bool.and_eq_true, decide_eq_true_eq, Bool.not_eq_true'] at h
-  exact ⟨Or.inl h.1.1, Or.inl h.1.2, Or.inl h.2⟩
-
-theorem fsOk_of_entries (env : Env) (fs : FS) (rank : String → Nat) (h : ∀ pe ∈ fs, entryOkB env rank pe = true) :
-    FsOk IsDiag env fs ∧ Acyclic fs rank := by
+theorem fsOk_of_entries (env : Env) (fs : FS) (h : ∀ pe ∈ fs, entryOkB env pe = true) : FsOk IsDiag env fs := by
   have doc : ∀ p top, fs.get p = .file (.doc top) →
-      ∀ i ∈ top, itemOkB env rank p i = true ∧ ∀ j ∈ i.contentOf, itemOkB env rank p j = true := by
+      ∀ i ∈ top, itemOkB env i = true ∧ ∀ j ∈ i.contentOf, itemOkB env j = true := by
     intro p top hp i hi
     have := h _ (get_mem hp (by simp))
     simp only [entryOkB, List.all_eq_true, Bool.and_eq_true] at this
     exact this i hi
-  have item : ∀ p i, itemOkB env rank p i = true →
-      i.head.offOk = true ∧ (∀ n ∈ i.visited, NodeOk IsDiag env n) ∧ inclOkB rank p i = true := by
-    intro p i hi
-    simp only [itemOkB, Bool.and_eq_true, List.all_eq_true] at hi
-    exact ⟨hi.1.1, fun n hn => nodeOk_of_B (hi.1.2 n hn), hi.2⟩
-  have incl : ∀ p n, inclOkB rank p (.incl n) = true → ∀ hh, n.attr "href" = some hh → rank hh < rank p := by
-    intro p n hi hh hhh
-    simp only [inclOkB, hhh, decide_eq_true_eq] at hi
-    exact hi
-  refine ⟨⟨?_, ?_, ?_, ?_, ?_⟩, ?_⟩
-  · intro p hp
-    have := h _ (get_mem hp (by simp))
-    simp [entryOkB] at this
-  · intro p w ok hp
-    have := h _ (get_mem hp (by simp))
-    simp only [entryOkB] at this
+  have item : ∀ i, itemOkB env i = true → ∀ n ∈ i.visited, NodeOk IsDiag env n := by
+    intro i hi n hn
+    simp only [itemOkB, List.all_eq_true] at hi
+    have := hi n hn
+    simp only [nodeOkB, decide_eq_true_eq] at this
     exact Or.inl this
+  refine ⟨?_, ?_⟩
   · intro p top hp i hi
-    exact Or.inl (item p i (doc p top hp i hi).1).1
-  · intro p top hp i hi
-    exact (item p i (doc p top hp i hi).1).2.1
+    exact item i (doc p top hp i hi).1
   · intro p top hp sn c hm i hi
-    exact (item p i ((doc p top hp _ hm).2 i (by simpa [Item.contentOf] using hi))).2.1
-  · intro p top hp
-    refine ⟨fun n hm hh hhh => ?_, fun sn c hm n hm2 hh hhh => ?_⟩
-    · exact incl p n (item p _ (doc p top hp _ hm).1).2.2 hh hhh
-    · exact incl p n (item p _ ((doc p top hp _ hm).2 _ (by simpa [Item.contentOf] using hm2))).2.2 hh hhh
+    exact item i ((doc p top hp _ hm).2 i (by simpa [Item.contentOf] using hi))
 
-/-- with `Q := NotFuel` every crash is allowed: only the include graph matters -/
+/-- with `Q := NotFuel` every crash is allowed -/
 theorem fsOk_notFuel (env : Env) (fs : FS) : FsOk NotFuel env fs :=
-  ⟨fun _ _ => trivial, fun _ _ _ _ => Or.inr trivial, fun _ _ _ _ _ => Or.inr trivial,
-   fun _ _ _ _ _ _ _ => ⟨Or.inr trivial, Or.inr trivial, Or.inr trivial⟩,
-   fun _ _ _ _ _ _ _ _ _ _ => ⟨Or.inr trivial, Or.inr trivial, Or.inr trivial⟩⟩
+  ⟨fun _ _ _ _ _ _ _ => Or.inr trivial, fun _ _ _ _ _ _ _ _ _ _ => Or.inr trivial⟩
 
 /-! ## the stages after parsing -/
 
@@ -588,15 +515,15 @@ theorem emitFiles_cases (env : Env) : ∀ (fs acc : List String),
 
 /-- the shapes a run can have -/
 theorem run_cases (env : Env) (fuel : Nat) (argv : List String) (fs : FS) :
-    (∃ e, run env fuel argv fs = ⟨report e, []⟩) ∨
+    (∃ e, front env fuel argv fs = .error e ∧ run env fuel argv fs = ⟨report e, []⟩) ∨
     (run env fuel argv fs = ⟨.ok [], []⟩) ∨
     (∃ cfg p, front env fuel argv fs = .ok (some (cfg, p)) ∧
-      ((∃ d, run env fuel argv fs = ⟨reportDiag ("can't create directory " ++ d ++ ", error: `E`"), []⟩) ∨
+      ((∃ d, run env fuel argv fs = ⟨.diag ("can't create directory " ++ d ++ ", error: `E`"), []⟩) ∨
        (run env fuel argv fs = ⟨.ok (env.files cfg p), env.files cfg p⟩) ∨
-       (∃ f w, env.openFails f = true ∧ run env fuel argv fs = ⟨reportDiag ("can't open file: `" ++ f ++ "`"), w⟩))) := by
+       (∃ f w, env.openFails f = true ∧ run env fuel argv fs = ⟨.diag ("can't open file: `" ++ f ++ "`"), w⟩))) := by
   unfold run
   cases hf : front env fuel argv fs with
-  | error e => left; exact ⟨e, rfl⟩
+  | error e => left; exact ⟨e, rfl, rfl⟩
   | ok o =>
     cases o with
     | none => right; left; rfl
@@ -614,15 +541,5 @@ theorem run_cases (env : Env) (fuel : Nat) (argv : List String) (fs : FS) :
         rcases emitFiles_cases env (env.files cfg p) [] with he | ⟨f, w, hfl, he⟩
         · left; rw [he]; simp
         · right; exact ⟨f, w, hfl, by rw [he]⟩
-
-theorem reportDiag_diag {m m' : String} (h : reportDiag m = .diag m') : m = m' := by
-  unfold reportDiag at h
-  split at h
-  · cases h; rfl
-  · cases h
-
-theorem reportDiag_not_ok {m : String} {fl : List String} : reportDiag m ≠ .ok fl := by
-  unfold reportDiag
-  split <;> simp
 
 end Sbepp.Gen.Pipeline
